@@ -186,6 +186,9 @@ def cases(draw, **kw):
                 pad=True, nodata_entries=False, names='simple', max_groups=2, zero_n=True)
     opts.update(kw)
     fs = draw(S.file_spec(**opts))
+    if draw(st.integers(0, 2)) == 0:
+        # one interleaved segment before the last one ends in an incomplete chunk (complete rows only are its content)
+        fs = draw(S.shorten_interleaved_middle(fs))
     reqs = []
     for _ in range(24):
         kind = draw(st.sampled_from(['window', 'window_to_chunk_start', 'slice', 'index', 'index', 'index']))
@@ -201,6 +204,13 @@ def cases(draw, **kw):
 
 
 @st.composite
+def twin_cases(draw):
+    """100+ segment files whose channels share a long prefix of per-segment counts (offset tables that look alike)"""
+    base = draw(cases(max_segments=2, min_segments=2))
+    return {'fs': draw(S.twin_long_file()), 'reqs': base['reqs'], 'cut': None}
+
+
+@st.composite
 def daqmx_cases(draw):
     from vf.daqmx import daqmx_file
     fs = draw(daqmx_file(max_len=12, max_chunks=4, max_segments=3))
@@ -211,7 +221,9 @@ def daqmx_cases(draw):
 def jobs(tier):
     if tier == 'quick':
         return [Job('files', 'hyp', lambda: cases(), n=6000),
+                Job('long_files_shared_offset_prefix', 'hyp', twin_cases, n=64),
                 Job('daqmx_files', 'hyp', daqmx_cases, n=1000)]
     return [Job('files', 'hyp', lambda: cases(), n=40000),
             Job('large_chunks', 'hyp', lambda: cases(max_n=400, max_chunks=6), n=5000),
+            Job('long_files_shared_offset_prefix', 'hyp', twin_cases, n=2000),
             Job('daqmx_files', 'hyp', daqmx_cases, n=20000)]
